@@ -256,6 +256,8 @@ def oracle_grid(c, out=None, notes=None):
     if "err" in out:
         if out["err"] == "IndexError":
             return None       # L14: densest cell alone > 1-alpha (outside the property's grids)
+        if out["err"] == "ValueError" and "n_neighbors" in out.get("err_msg", ""):
+            return "unjudgeable"   # fewer than 3 boundary cells: sklearn rejects the point set (line sorter, C15)
         return (dict(sig0, clause="unexpected-exception"), "HighestDensityContour raised %s: %s" % (out["err"], out.get("err_msg", "")))
     cont = out["contour"]
     coords = cont.cell_center_coordinates
